@@ -17,6 +17,7 @@ package authip
 import (
 	"io/ioutil"
 	"path"
+	"sync/atomic"
 
 	"github.com/cornelk/hashmap"
 	"github.com/fsnotify/fsnotify"
@@ -34,23 +35,48 @@ type AuthIp struct {
 
 var IpMap ipMap
 
+// ipMap holds the admitted addresses as an immutable set that every reload
+// replaces as a whole: the event loop and the web handler read whichever set is
+// current and never see (or race with) a set that is being modified.
 type ipMap struct {
 	enable bool
-	hashmap.HashMap
+	set    atomic.Value // map[string]struct{}
+}
+
+func (i *ipMap) current() map[string]struct{} {
+	set, _ := i.set.Load().(map[string]struct{})
+	return set
 }
 
 func (i *ipMap) Validate(ip string) bool {
 	if i.enable {
-		if _, ok := i.Get(ip); !ok {
+		if _, ok := i.current()[ip]; !ok {
 			return false
 		}
 	}
 	return true
 }
 
-func (i *ipMap) Insert(key string, value struct{}) bool {
-	_, ok := i.HashMap.GetOrInsert(key, value)
-	return ok
+// Get reports whether ip is in the current set.
+func (i *ipMap) Get(ip string) (struct{}, bool) {
+	_, ok := i.current()[ip]
+	return struct{}{}, ok
+}
+
+// Len returns the number of addresses in the current set.
+func (i *ipMap) Len() int {
+	return len(i.current())
+}
+
+// Iter iterates over the current set.
+func (i *ipMap) Iter() <-chan hashmap.KeyValue {
+	set := i.current()
+	ch := make(chan hashmap.KeyValue, len(set))
+	for ip := range set {
+		ch <- hashmap.KeyValue{Key: ip, Value: struct{}{}}
+	}
+	close(ch)
+	return ch
 }
 
 type authIp struct {
@@ -123,21 +149,14 @@ func (a *AuthIp) parseAuthIp() error {
 		return nil
 	}
 
+	// The set is built aside and published in one step. (It used to be a concurrent
+	// hash map that was edited in place; deletions and insertions that overlapped
+	// with that map's background resize left removed addresses admitted and new ones
+	// refused until the next restart.)
 	listed := make(map[string]struct{}, len(auth.IpList))
 	for _, ip := range auth.IpList {
 		listed[ip] = struct{}{}
-		if !IpMap.Insert(ip, struct{}{}) {
-			logging.Debugf("set ip %s", ip)
-		}
 	}
-	// addresses that are no longer in the file lose their access
-	for kv := range IpMap.Iter() {
-		if ip, ok := kv.Key.(string); ok {
-			if _, ok := listed[ip]; !ok {
-				IpMap.Del(ip)
-				logging.Debugf("del ip %s", ip)
-			}
-		}
-	}
+	IpMap.set.Store(listed)
 	return nil
 }
